@@ -356,9 +356,6 @@ pub fn final_check(s: &mut In) -> Result<Outcome, Violation> {
     if s.cfg.judge & J_C17 != 0 {
         crate::c17::final_check(s)?;
     }
-    if s.cfg.judge & J_C10 != 0 {
-        crate::c10conn::final_check(s)?;
-    }
     // canonical observation: what was sent, what came back, handler order and outcomes, stops
     let hs = handler_records(s);
     let obs = format!(
